@@ -98,8 +98,8 @@ def run(chk):
     chk.assume_note('A-FRESH (call sites): insert_coin on an id that already exists keeps its covenant hash '
                     '(holds for Melswap rewrites, checked in C15; fresh ids for new outputs follow from hash injectivity)')
     chk.assume_note('counts < 2^63 so +1 cannot overflow (2^63 coins do not fit any state)')
-    coin_kernels(chk, it)
-    call_sites(chk, it)
+    chk.guard(coin_kernels, chk, it)
+    chk.guard(call_sites, chk, it)
     tv(chk)
 
 
